@@ -45,6 +45,13 @@ func linkedIPHandler(
 
 		// Make sure that all requests are marked with our user agent.
 		r.Out.Header.Set(httphdr.UserAgent, agdhttp.UserAgent())
+
+		// The reverse proxy removes the headers that the client has named in
+		// its Connection header as hop-by-hop ones.  Make sure that the ones
+		// set by the handler cannot be removed that way.
+		for _, name := range []string{httphdr.XConnectingIP, httphdr.XRequestID} {
+			r.Out.Header.Set(name, r.In.Header.Get(name))
+		}
 	}
 
 	// Use largely the same transport as http.DefaultTransport, but with a
